@@ -560,6 +560,7 @@ class Script:
         self.frames = []          # (kind, bytes)
         self.ident = None
         self.role = role
+        self.reauth = 0.0
 
     def known(self):
         return [i for i, r in self.table.items() if r is not None]
@@ -611,6 +612,10 @@ class Script:
         subs = row[2] or []
         k = rng.random()
         adversarial = self.role != 'benign'
+        if self.reauth and rng.random() < self.reauth:
+            # a second, valid OP_AUTH under (usually) another identity: the broker accepts it and keeps the subscriptions
+            self.add_auth(True)
+            return
         if not adversarial:
             # a well-behaved client only asks for what it is allowed to
             if k < 0.30 and not subs:
@@ -695,11 +700,14 @@ class Script:
         return b''.join(f for _, f in self.frames)
 
 
-def gen_history(rng, nconn=None, async_=False, profile='mixed', table=None, nops=None, faults=None, chunking=None):
+def gen_history(rng, nconn=None, async_=False, profile='mixed', table=None, nops=None, faults=None, chunking=None, reauth=0.0,
+                scenario=None):
     """-> case dict and per-connection scripts.
     profile: 'benign' (only valid traffic, no faults), 'mixed' (mostly valid, some adversarial connections and
     faults), 'hostile' (mostly adversarial)."""
     from wire import cut
+    if scenario == 'reauth_leave':
+        return gen_reauth_leave(rng, async_=async_)
     table = table if table is not None else rng.choice(DB_TABLES)
     nconn = nconn or rng.choice([2, 2, 3, 3, 4, 5])
     name = rng.choice(['hpfeeds', 'b', 'bröker'])
@@ -709,6 +717,7 @@ def gen_history(rng, nconn=None, async_=False, profile='mixed', table=None, nops
     for q in range(nconn):
         role = 'adversarial' if rng.random() < p_adv else 'benign'
         sc = Script(rng, table, q, nonces[q], role, other_nonce=nonces[(q + 1) % nconn])
+        sc.reauth = reauth
         k = rng.random()
         if role == 'benign' or k < 0.6:
             sc.add_auth(True)
@@ -728,6 +737,13 @@ def gen_history(rng, nconn=None, async_=False, profile='mixed', table=None, nops
         mode = chunking or rng.choice(['one', 'frames', 'frames', 'rand', 'rand', 'header', 'two', 'bytes' if len(data) < 120 else 'rand'])
         if mode == 'frames':
             chunks = [f for _, f in sc.frames]
+        elif mode == 'bursts':
+            # pipelining: several whole frames per read (what a client that does not wait for answers produces)
+            chunks, fr = [], [f for _, f in sc.frames]
+            while fr:
+                n = rng.choice([1, 2, 2, 3, 4])
+                chunks.append(b''.join(fr[:n]))
+                fr = fr[n:]
         else:
             chunks = cut(rng, data, mode)
         queues.append([['D', sc.q, jbytes(c)] for c in chunks])
@@ -761,6 +777,75 @@ def gen_history(rng, nconn=None, async_=False, profile='mixed', table=None, nops
             events.append(rng.choice([['L', v], ['E', v], ['T', 60]]))
     case = dict(name=jbytes(name.encode()), db=jdb(table), async_=async_, events=events)
     return case, scripts
+
+
+def gen_reauth_leave(rng, async_=False):
+    """directed history: a connection subscribes under one identity, authenticates again under another whose permissions
+    differ, (un)subscribes some more and then goes away; afterwards others publish on every channel it ever held while a
+    live subscriber is listening.  Everything is permitted traffic."""
+    from wire import cut
+    table = DB_TABLES[0]
+    name = rng.choice(['hpfeeds', 'b'])
+    nonces = [bytes(rng.randrange(256) for _ in range(4)) for _ in range(3)]
+    first, second = rng.choice([('ali', 'carol'), ('alice', 'ali'), ('bob', 'ali'), ('alice', 'carol'), ('carol', 'ali'), ('ali', 'bob')])
+
+    def auth(q, ident):
+        return auth_frame(ident, digest(nonces[q], table[ident][0]))
+    leaver = [auth(0, first)]
+    held = []
+    for c in rng.sample(table[first][2], rng.randint(1, len(table[first][2]))):
+        leaver.append(P.msgsubscribe(first, c))
+        held.append(c)
+    leaver.append(auth(0, second))
+    for c in rng.sample(table[second][2], rng.randint(0, len(table[second][2]))):
+        leaver.append(P.msgsubscribe(second, c))
+        held.append(c)
+    if rng.random() < 0.3 and held:
+        leaver.append(P.msgunsubscribe(second, rng.choice(held)))
+    # a listener and a publisher for every channel the leaver ever held
+    chans = sorted(set(held))
+    pubs = []        # (ident, chan)
+    for c in chans:
+        who = [i for i, r in table.items() if r and r[1] and c in r[1]]
+        if who:
+            pubs.append((rng.choice(who), c))
+    listen = []
+    for c in chans:
+        who = [i for i, r in table.items() if r and r[2] and c in r[2]]
+        if who:
+            listen.append((rng.choice(who), c))
+    events = [['C', 0, jbytes(nonces[0])], ['C', 1, jbytes(nonces[1])], ['C', 2, jbytes(nonces[2])]]
+    mode = rng.choice(['frames', 'frames', 'one', 'rand'])
+    lch = leaver if mode == 'frames' else cut(rng, b''.join(leaver), mode)
+    for ch in lch:
+        events.append(['D', 0, jbytes(ch)])
+    cur = None
+    for ident, c in listen:
+        if ident != cur:
+            events.append(['D', 1, jbytes(auth(1, ident))])
+            cur = ident
+        events.append(['D', 1, jbytes(P.msgsubscribe(ident, c))])
+    if async_:
+        for q in (0, 0, 1, 1, 1):
+            events.append(gen_lookup(rng, table, q, None))
+    events.append(rng.choice([['L', 0], ['L', 0], ['E', 0]]))
+    if events[-1][0] == 'E' and rng.random() < 0.7:
+        events.append(['L', 0])
+    cur = None
+    for _ in range(rng.randint(1, 2)):
+        for ident, c in pubs:
+            if ident != cur:
+                events.append(['D', 2, jbytes(auth(2, ident))])
+                if async_:
+                    events.append(gen_lookup(rng, table, 2, ident))
+                cur = ident
+            events.append(['D', 2, jbytes(P.msgpublish(ident, c, gen_payload(rng)))])
+    case = dict(name=jbytes(name.encode()), db=jdb(table), async_=async_, events=events)
+
+    class R:
+        def __init__(self, q):
+            self.q, self.role = q, 'benign'
+    return case, [R(0), R(1), R(2)]
 
 
 def gen_lookup(rng, table, q, ident=None):
